@@ -365,6 +365,254 @@ pub async fn run_one(rep: &mut Report, prop: &str, sub_seed: u64, table: Arc<Vec
     }
 }
 
+
+// ---------------------------------------------------------------------------------------------
+// C03 leg B: a live resize under concurrent client traffic over TCP (OS threads schedule the
+// proxies' sessions, backends and migration tasks), per-key linearizability + final placement.
+
+use crate::c03::{gen_op, to_argv, to_kret, Kind};
+use crate::fakeredis::Val;
+use crate::linz::*;
+
+pub async fn run_c03_one(rep: &mut Report, sub_seed: u64, table: Arc<Vec<Vec<u8>>>) {
+    let mut rng = Rng::new(sub_seed);
+    let cfg = BrokerCfg { migration_limit: *rng.pick(&[0u64, 1, 2]), failure_ttl: 600, failure_quorum: 1, ordered: false };
+    let opts = ProxyOpts { backend_conn_num: rng.urange(1, 3), active_redirection: rng.chance(1, 3), ..Default::default() };
+    let scan_count = *rng.pick(&["1", "2", "4", "10"]);
+    let sys = {
+        let mut sys = match RealSys::start(&mut rng, &cfg, opts.clone()).await {
+            Ok(s) => s,
+            Err(_) => return rep.count("real_runs_skipped_start_failed", 1),
+        };
+        for i in 0..rng.urange(8, 12) {
+            if sys.add_proxy(i).await.is_none() {
+                return rep.count("real_runs_skipped_start_failed", 1);
+            }
+        }
+        sys
+    };
+    if !sys.wait_listeners().await {
+        return rep.count("real_runs_skipped_start_failed", 1);
+    }
+    let (from, to) = *rng.pick(&[(4usize, 8usize), (4, 8), (8, 4), (4, 12), (8, 12)]);
+    let (st, _) = sys.admin("POST", &format!("/clusters/meta/{}", NAME), Some(json!({"node_number": from}))).await;
+    if st != 200 {
+        return rep.count("real_runs_without_cluster", 1);
+    }
+    let _ = sys.admin("PATCH", &format!("/clusters/config/{}", NAME), Some(json!({"migration_scan_count": scan_count, "migration_scan_interval": "500"}))).await;
+    let mut cx = Ctx { rep, prop: "C03", sub_seed };
+    let mut epochs = BTreeMap::new();
+    if !converge(&mut cx, &sys, 12, "after cluster creation", &mut epochs).await {
+        return;
+    }
+    let scenario = json!({"sub_seed": sub_seed, "leg": "real-sockets", "from_nodes": from, "to_nodes": to, "migration_limit": cfg.migration_limit, "scan_count": scan_count,
+        "active_redirection": opts.active_redirection, "backend_conn_num": opts.backend_conn_num});
+    let nkeys = rng.urange(8, 20);
+    let mut keys: Vec<(Vec<u8>, Kind, usize)> = vec![];
+    for i in 0..nkeys {
+        let slot = rng.usize_below(16384);
+        let kind = match i % 5 {
+            0 => Kind::Counter,
+            1 => Kind::List,
+            _ => Kind::Register,
+        };
+        let mut key = b"{".to_vec();
+        key.extend_from_slice(&table[slot]);
+        key.extend_from_slice(format!("}}k{}", i).as_bytes());
+        keys.push((key, kind, slot));
+    }
+    let members: Vec<String> = sys.svc.get_cluster_by_name(NAME).await.ok().flatten().map(|c| c.get_nodes().iter().map(|n| n.get_proxy_address().to_string()).collect::<BTreeSet<_>>().into_iter().collect()).unwrap_or_default();
+    if members.is_empty() {
+        return;
+    }
+    let nclients = rng.urange(3, 6);
+    let per_key_cap = 40usize;
+    let histories: parking_lot::Mutex<Vec<Vec<HOp>>> = parking_lot::Mutex::new((0..nkeys).map(|_| vec![]).collect());
+    let clock = AtomicU64::new(1);
+    let resize_done = AtomicBool::new(false);
+    let not_executed = AtomicU64::new(0);
+    let client_fut = |cid: usize, mut crng: Rng| {
+        let (sys, keys, histories, clock, resize_done, not_executed, members) = (&sys, &keys, &histories, &clock, &resize_done, &not_executed, &members);
+        async move {
+            let mut n = 0u64;
+            let mut after_done = 0;
+            loop {
+                if resize_done.load(Ordering::SeqCst) {
+                    after_done += 1;
+                    if after_done > 4 {
+                        break;
+                    }
+                }
+                let ki = crng.usize_below(keys.len());
+                if histories.lock()[ki].len() >= per_key_cap {
+                    if histories.lock().iter().all(|h| h.len() >= per_key_cap) {
+                        break;
+                    }
+                    tokio::time::sleep(Duration::from_millis(5)).await;
+                    continue;
+                }
+                n += 1;
+                let (key, kind, _) = &keys[ki];
+                let op = gen_op(&mut crng, *kind, cid, n);
+                let argv = to_argv(key, &op, 100_000);
+                let start = crng.pick(members).clone();
+                let call = clock.fetch_add(1, Ordering::SeqCst);
+                let (reply, path) = sys.client(&start, &argv, 8).await;
+                let ret = clock.fetch_add(1, Ordering::SeqCst);
+                match reply {
+                    None => {
+                        histories.lock()[ki].push(HOp { client: cid, op, call, ret: u64::MAX, result: KRet::Unknown, via: format!("{:?} (no reply)", path) });
+                        break; // this logical client retires
+                    }
+                    Some(r) => match to_kret(&r.to_resp()) {
+                        None => {
+                            not_executed.fetch_add(1, Ordering::SeqCst);
+                        }
+                        Some(KRet::Unknown) => histories.lock()[ki].push(HOp { client: cid, op, call, ret: u64::MAX, result: KRet::Unknown, via: format!("{:?} -> {}", path, r.short()) }),
+                        Some(k) => histories.lock()[ki].push(HOp { client: cid, op, call, ret, result: k, via: format!("{:?}", path) }),
+                    },
+                }
+                tokio::time::sleep(Duration::from_millis(crng.range(0, 12))).await;
+            }
+        }
+    };
+    let controller = async {
+        // some traffic on the stable cluster first
+        tokio::time::sleep(Duration::from_millis(100)).await;
+        let path = if to > from { format!("/clusters/migrations/auto/{}/{}", NAME, to) } else { format!("/clusters/migrations/shrink/{}/{}", NAME, to) };
+        let admin_done = AtomicBool::new(false);
+        let (res, _) = tokio::join!(
+            async {
+                let r = sys.admin("POST", &path, None).await;
+                admin_done.store(true, Ordering::SeqCst);
+                r
+            },
+            async {
+                let mut k = 0;
+                while !admin_done.load(Ordering::SeqCst) && k < 400 {
+                    sys.coordinator_round("real-coord").await;
+                    k += 1;
+                    tokio::time::sleep(Duration::from_millis(30)).await;
+                }
+            }
+        );
+        if res.0 != 200 {
+            resize_done.store(true, Ordering::SeqCst);
+            return Err(format!("resize refused: {} {}", res.0, res.1));
+        }
+        // rounds until the broker has committed everything
+        let mut rounds = 0u64;
+        loop {
+            sys.coordinator_round("real-coord").await;
+            rounds += 1;
+            let migrating = sys.svc.get_cluster_info_by_name(NAME).await.ok().flatten().map(|i| i.is_migrating).unwrap_or(false);
+            if !migrating {
+                break;
+            }
+            if rounds > 600 {
+                resize_done.store(true, Ordering::SeqCst);
+                return Err(format!("{} coordinator rounds and the migration is still not committed", rounds));
+            }
+            tokio::time::sleep(Duration::from_millis(30)).await;
+        }
+        for _ in 0..3 {
+            sys.coordinator_round("real-coord").await;
+        }
+        resize_done.store(true, Ordering::SeqCst);
+        Ok(rounds)
+    };
+    let clients = futures::future::join_all((0..nclients).map(|c| client_fut(c, Rng::new(sub_seed ^ (c as u64 + 1) * 7919))));
+    let (ctrl, _) = futures::future::join(controller, clients).await;
+    let rounds = match ctrl {
+        Ok(r) => r,
+        Err(e) => {
+            if e.starts_with("resize refused") {
+                cx.rep.count("real_resize_refused", 1);
+            } else {
+                cx.violation(&sys, "migration-never-committed", e, scenario.clone());
+            }
+            return;
+        }
+    };
+    cx.rep.count("real_migrations_run_under_traffic", 1);
+    cx.rep.set_max("max_real_coordinator_rounds", rounds);
+    cx.rep.count("real_commands_answered_not_executed", not_executed.load(Ordering::SeqCst));
+    tokio::time::sleep(Duration::from_millis(300)).await;
+    let own = match sys.svc.get_cluster_by_name(NAME).await.ok().flatten() {
+        Some(c) => owners(&c).0,
+        None => return,
+    };
+    let histories = histories.into_inner();
+    for (ki, h) in histories.iter().enumerate() {
+        let (key, kind, slot) = &keys[ki];
+        cx.rep.evaluations += 1;
+        cx.rep.count("real_operations_in_histories", h.len() as u64);
+        cx.rep.count("real_operations_with_unknown_outcome", h.iter().filter(|o| o.result == KRet::Unknown).count() as u64);
+        if h.iter().enumerate().any(|(i, a)| h.iter().skip(i + 1).any(|b| a.call < b.ret && b.call < a.ret)) {
+            cx.rep.count("real_keys_with_overlapping_operations", 1);
+        }
+        let shape: Vec<String> = h.iter().map(|o| format!("{:?}{:?}", std::mem::discriminant(&o.op), std::mem::discriminant(&o.result))).collect();
+        cx.rep.distinct(format!("real|{}|{:?}|{:?}", sub_seed, kind, shape).as_bytes());
+        let hist_json = || json!(h.iter().map(|o| json!({"client": o.client, "op": format!("{:?}", o.op), "call": o.call, "ret": if o.ret == u64::MAX { json!("open") } else { json!(o.ret) }, "result": format!("{:?}", o.result), "via": o.via})).collect::<Vec<_>>());
+        let finals = match check(KeyState::Nil, h, 3_000_000) {
+            Verdict::Ok(f) => f,
+            Verdict::Inconclusive => {
+                cx.rep.count("real_keys_checker_inconclusive", 1);
+                continue;
+            }
+            Verdict::NotLinearizable => {
+                cx.violation(&sys, &format!("history-not-linearizable:{:?}", kind), format!("the replies for key {} (slot {}) cannot be explained by any sequential order", String::from_utf8_lossy(key), slot), json!({"scenario": scenario, "history": hist_json()}));
+                continue;
+            }
+        };
+        cx.rep.count("real_keys_linearizable", 1);
+        let mut holders: Vec<(String, Val)> = vec![];
+        for r in sys.net.all_redis() {
+            if let Some((v, _)) = r.get_raw(key) {
+                holders.push((r.addr.clone(), v));
+            }
+        }
+        let owner = own[*slot].as_ref().map(|o| o.0.clone());
+        let place = json!({"scenario": scenario, "key": String::from_utf8_lossy(key), "slot": slot, "owner_after_migration": owner, "held_by": holders.iter().map(|h| json!({"node": h.0, "value": format!("{:?}", h.1)})).collect::<Vec<_>>(),
+            "possible_final_states": finals.iter().map(|f| format!("{:?}", f)).collect::<Vec<_>>(), "history": hist_json()});
+        if holders.len() > 1 {
+            cx.violation(&sys, "key-exists-on-several-nodes", format!("key {} is stored on {} nodes after the migration", String::from_utf8_lossy(key), holders.len()), place);
+            continue;
+        }
+        let stored: KeyState = match holders.first() {
+            None => KeyState::Nil,
+            Some((_, Val::Str(s))) => KeyState::Str(s.clone(), false),
+            Some((_, Val::List(l))) => KeyState::List(l.clone()),
+        };
+        let value_only = |s: &KeyState| match s {
+            KeyState::Str(v, _) => KeyState::Str(v.clone(), false),
+            o => o.clone(),
+        };
+        cx.rep.count("real_final_states_compared", 1);
+        if !finals.iter().any(|f| value_only(f) == stored) {
+            let sig = match (&stored, finals.iter().all(|f| *f == KeyState::Nil)) {
+                (KeyState::Nil, _) => "acknowledged-data-lost",
+                (_, true) => "deleted-data-resurrected",
+                _ => "final-value-wrong",
+            };
+            cx.violation(&sys, sig, format!("key {}: stored {:?}, possible {:?}", String::from_utf8_lossy(key), stored, finals), place);
+            continue;
+        }
+        if let Some((node, _)) = holders.first() {
+            if Some(node) != owner.as_ref() {
+                cx.violation(&sys, "key-left-on-wrong-node", format!("key {} is on {} but slot {} belongs to {:?}", String::from_utf8_lossy(key), node, slot, owner), place);
+            }
+        }
+    }
+    if cx.rep.counter("real_samples") < 1 {
+        cx.rep.count("real_samples", 1);
+        if let Some((ki, h)) = histories.iter().enumerate().max_by_key(|(_, h)| h.len()) {
+            cx.rep.sample(json!({"scenario": scenario, "clients": nclients, "keys": nkeys, "coordinator_rounds": rounds, "key": String::from_utf8_lossy(&keys[ki].0),
+                "one_key_history": h.iter().take(12).map(|o| format!("c{} {:?} [{}..{}] -> {:?} via {}", o.client, o.op, o.call, if o.ret == u64::MAX { 0 } else { o.ret }, o.result, o.via)).collect::<Vec<_>>()}));
+        }
+    }
+}
+
 /// `n` scenarios on `threads` OS threads, each scenario on its own multi-thread runtime (dropped
 /// afterwards, which ends the HTTP server and the listeners of that scenario).
 pub fn run(rep: &mut Report, prop: &'static str, n: u64, threads: usize) {
@@ -391,7 +639,13 @@ pub fn run(rep: &mut Report, prop: &'static str, n: u64, threads: usize) {
                     }
                 };
                 let sub = Rng::sub_seed(seed, i);
-                let r = rt.block_on(async { tokio::time::timeout(Duration::from_secs(240), run_one(&mut local, prop, sub, table.clone())).await });
+                let r = rt.block_on(async {
+                    if prop == "C03" {
+                        tokio::time::timeout(Duration::from_secs(240), run_c03_one(&mut local, sub, table.clone())).await
+                    } else {
+                        tokio::time::timeout(Duration::from_secs(240), run_one(&mut local, prop, sub, table.clone())).await
+                    }
+                });
                 if r.is_err() {
                     local.inconclusive(format!("real-socket leg: scenario {} did not finish within 240 s of wall-clock time", sub));
                 }
